@@ -1,4 +1,10 @@
 import AcryoVerif.Model.Frame
+import AcryoVerif.Lemmas.PyLemmas
+import Mathlib.Tactic.Linarith
+import Mathlib.Tactic.Positivity
+import Mathlib.Tactic.FieldSimp
+import Mathlib.Algebra.Order.Field.Basic
+import Mathlib.Algebra.Order.Ring.Abs
 
 /-!
 # C13 — Saved molecules reload unchanged
@@ -7,7 +13,8 @@ namespace C13
 open Model Py
 
 theorem source_structure :
-    Gen.columnLayout = true ∧ Gen.fromDataFrameSelectsByName = true ∧ Gen.dupColumnsRejected = true := by
+    Gen.columnLayout = true ∧ Gen.fromDataFrameSelectsByName = true ∧ Gen.dupColumnsRejected = true
+    ∧ Gen.writersPassThrough = true := by
   decide
 
 /-- **Format dispatch**: `to_file` and `from_file` choose the same format for every suffix, and it is
@@ -71,5 +78,58 @@ theorem df_roundtrip (c0 c1 c2 c3 c4 c5 : List χ) (feats : Frame χ)
   have := filter_feats feats h
   simp only [csvColumns, List.contains_cons, List.contains_nil] at this
   rw [this]
+
+/-! ## CSV: the requested decimal precision -/
+
+/-- a value written with `p` decimals (any writer that picks a nearest decimal; modelled with
+round-half-even) -/
+def roundDec (p : Nat) (x : ℚ) : ℚ := ((Py.round (x * 10 ^ p) : Int) : ℚ) / 10 ^ p
+
+theorem round_abs_le (q : ℚ) : |((Py.round q : Int) : ℚ) - q| ≤ 1 / 2 := by
+  unfold Py.round
+  have h1 := Py.floor_le (q + 1 / 2)
+  have h2 := Py.lt_floor_add_one (q + 1 / 2)
+  simp only [Py.floor] at h1 h2
+  rw [abs_le]
+  simp only
+  by_cases h : (((q + 1 / 2).floor : Int) : ℚ) = q + 1 / 2 ∧ (q + 1 / 2).floor % 2 ≠ 0
+  · rw [if_pos h]
+    push_cast
+    constructor <;> linarith [h.1]
+  · rw [if_neg h]
+    constructor <;> linarith
+
+/-- **CSV precision**: a number written with `float_precision = p` and read back differs from the
+original by at most half a unit of the last written decimal — for every `p` (the writers pass the
+requested `p` to polars unchanged: `writersPassThrough`). -/
+theorem csv_precision (p : Nat) (x : ℚ) : |roundDec p x - x| ≤ 1 / (2 * 10 ^ p) := by
+  unfold roundDec
+  have hp : (0 : ℚ) < 10 ^ p := by positivity
+  have h := round_abs_le (x * 10 ^ p)
+  have e : ((Py.round (x * 10 ^ p) : Int) : ℚ) / 10 ^ p - x
+      = (((Py.round (x * 10 ^ p) : Int) : ℚ) - x * 10 ^ p) / 10 ^ p := by
+    field_simp
+  rw [e, abs_div, abs_of_pos hp, div_le_div_iff₀ hp (by positivity)]
+  calc |((Py.round (x * 10 ^ p) : Int) : ℚ) - x * 10 ^ p| * (2 * 10 ^ p)
+      ≤ 1 / 2 * (2 * 10 ^ p) := mul_le_mul_of_nonneg_right h (by positivity)
+    _ = 1 * 10 ^ p := by
+        have : (1 : ℚ) / 2 * (2 * 10 ^ p) = 10 ^ p := by field_simp
+        rw [this, one_mul]
+
+/-- values that already have at most `p` decimals survive exactly -/
+theorem csv_exact (p : Nat) (k : Int) : roundDec p ((k : ℚ) / 10 ^ p) = (k : ℚ) / 10 ^ p := by
+  unfold roundDec
+  have hp : (10 : ℚ) ^ p ≠ 0 := by positivity
+  have : (k : ℚ) / 10 ^ p * 10 ^ p = (k : ℚ) := by field_simp
+  rw [this]
+  congr 2
+  unfold Py.round
+  have hf : ((k : ℚ) + 1 / 2).floor = k := by
+    have := Py.floor_eq_of ((k : ℚ) + 1 / 2) k (by linarith) (by linarith)
+    simpa [Py.floor] using this
+  simp only [hf]
+  rw [if_neg]
+  rintro ⟨h, _⟩
+  linarith
 
 end C13
